@@ -1289,6 +1289,11 @@ def run_malformed(ctx, pygam, lits):
         except Exception as ex:  # noqa
             impl = type(ex).__name__
         want = 'ok' if 0 < e < 1 else 'ValueError'
+        if impl == 'OptimizationError' and want == 'ok':
+            # the range check accepted the value; the fit that follows failed numerically (an expectile of 5e-324 makes every
+            # working weight underflow) — an optimisation failure on an admissible parameter is not a rejection of the parameter
+            ctx.count('malformed: admissible expectile, fit failed numerically', '%g' % e)
+            impl = 'ok'
         if impl != want:
             ctx.fail(st, sig, dict(expectile=e), observed=impl, expected=want, oracle='ValueError iff expectile not in (0,1)')
         elif impl != line:
